@@ -2,7 +2,7 @@
 (* Recorded runs of the real ProgressIndicator.auto() under the baton scheduler checked against Spinner.
    event: [th, op, ops, dt,     -- who took the step ("M", "S", "T" = clock), the operation the thread was waiting at,
                                    what the step wrote (tokenised, engine/termbytes.py), clock advance (T only)
-           cfg,                 -- first event (op = "new") only: [w, interval, start, end, body]
+           cfg,                 -- first event (op = "new") only: [mode, w, interval, start, end, body]
            outcome, exc, salive, sexc]
                                 -- last event (op = "end") only: "normal" | "raised" | "stuck" (M did not leave the
                                    with-block within the step budget although the completion phase of the schedule
@@ -33,7 +33,8 @@ FirstRaise == LET S == {k \in 1..Len(cfg.body) : cfg.body[k].k \in {"raise", "in
 TNew == /\ l = 1 /\ Is("new") /\ Adv
         /\ UNCHANGED <<vars, oterm, sync>>
         /\ Check(tid, l, "H.cfg", "", /\ \A m \in Msgs : m # <<>> /\ \A k \in 1..Len(m) : m[k] \notin ValueSet \cup {" "}
-                                      /\ \A m \in Msgs : Len(m) + 3 < cfg.w)
+                                      /\ \A m \in Msgs : Len(m) + 3 < cfg.w
+                                      /\ cfg.mode \in {"ansi", "plain", "quiet"})
 
 ModelCan(th) == (th = "M" /\ EnM) \/ (th = "S" /\ EnS) \/ th = "T"
 StepOps == {"write", "sleep", "start", "join", "set", "isset", "acquire", "work", "tick", "wait", "clear"}
@@ -41,7 +42,7 @@ StepOps == {"write", "sleep", "start", "join", "set", "isset", "acquire", "work"
 \* the P-clauses of a step: on the observed writes only
 PStep == /\ oterm' = ApplyOps(oterm, E.ops)
          /\ Check(tid, l, "H.ops.known", "", AllKnown(E.ops) /\ (E.ops # <<>> => E.op = "write"))
-         /\ Check(tid, l, "P.nomix", E.th, NoMixT(oterm', Msgs))
+         /\ Check(tid, l, "P.nomix", E.th, NoMixT(oterm', Msgs, cfg.mode))
 
 TFollow == /\ l > 1 /\ l <= Len(T) /\ E.op \in StepOps /\ Adv
            /\ sync /\ ModelCan(E.th)
@@ -60,7 +61,7 @@ TEnd == /\ l > 1 /\ l = Len(T) /\ Is("end") /\ Adv
         /\ Check(tid, l, "P.terminates", "", E.outcome # "stuck")
         /\ Check(tid, l, "P.joined", E.outcome, ~E.salive)
         /\ Check(tid, l, "P.endframe", IF E.outcome = "normal" THEN "frame" ELSE E.exc,
-                 ~Raises => (E.outcome = "normal" /\ EndFrameT(oterm, cfg.end)))
+                 ~Raises => (E.outcome = "normal" /\ (Quiet \/ EndFrameT(oterm, cfg.end, cfg.mode))))
         /\ Note(tid, l, "A.outcome", sync => (pcM = "done" /\ outcome = E.outcome))
         /\ Note(tid, l, "A.exc", E.sexc = "" /\ (E.outcome = "raised" => (Raises /\ E.exc = (IF FirstRaise = "raise" THEN "BodyError" ELSE "KeyboardInterrupt"))))
 
